@@ -1512,6 +1512,9 @@ def register(M):
         if isinstance(values, Vec):
             if values.sel_mask is not None:
                 raise AnalysisError(f'{what} of a data-dependent selection not modelled', node)
+            if values.dtype != t.dtype:
+                # library fact: an array value must cast *safely* to the target's dtype (int64 values into a uint8 array raise TypeError)
+                raise AnalysisError(f'{what} with a value array of another dtype (casting rule) not modelled', node)
             if len(values) == 1:
                 values = Sc(values.el(0).d, values.dtype, values.unit)
             elif len(values) == n and cyclic_ok:
